@@ -145,14 +145,20 @@ func (p *MetadataPersister) UpdateHeaderMetadata(ctx context.Context, dbhdr *con
 	return nil
 }
 
-func (p *MetadataPersister) MoveHeader(ctx context.Context, oldName string, newName string, lastknownrecord, lastknownblock int64) error {
+func (p *MetadataPersister) MoveHeader(ctx context.Context, oldName string, newName string, linkname string, lastknownrecord, lastknownblock int64) error {
 	newName = p.getSanitizedPath(ctx, newName)
 	oldName = p.getSanitizedPath(ctx, oldName)
+
+	// Links are stored under the name of their target, so only the link path tells the entry apart from the links to it
+	if linkname != "" {
+		linkname = p.getSanitizedPath(ctx, linkname)
+	}
 
 	// If the header to move exists, it replaces whatever is still stored under the new name, i.e. the tombstone of an entry that has been deleted before
 	if oldName != newName {
 		sources, err := models.Headers(
 			qm.Where(models.HeaderColumns.Name+" = ?", oldName),
+			qm.Where(models.HeaderColumns.Linkname+" = ?", linkname),
 		).All(ctx, p.sqlite.DB)
 		if err != nil {
 			return err
@@ -171,17 +177,19 @@ func (p *MetadataPersister) MoveHeader(ctx context.Context, oldName string, newN
 	// We can't do this with `dbhdr.Update` because we are renaming the primary key
 	n, err := queries.Raw(
 		fmt.Sprintf(
-			`update %v set %v = ?, %v = ?, %v = ? where %v = ?;`,
+			`update %v set %v = ?, %v = ?, %v = ? where %v = ? and %v = ?;`,
 			models.TableNames.Headers,
 			models.HeaderColumns.Name,
 			models.HeaderColumns.Lastknownrecord,
 			models.HeaderColumns.Lastknownblock,
 			models.HeaderColumns.Name,
+			models.HeaderColumns.Linkname,
 		),
 		newName,
 		lastknownrecord,
 		lastknownblock,
 		oldName,
+		linkname,
 	).ExecContext(ctx, p.sqlite.DB)
 	if err != nil {
 		return err
@@ -195,17 +203,19 @@ func (p *MetadataPersister) MoveHeader(ctx context.Context, oldName string, newN
 	if written < 1 {
 		if _, err := queries.Raw(
 			fmt.Sprintf(
-				`update %v set %v = ?, %v = ?, %v = ? where %v = ?;`,
+				`update %v set %v = ?, %v = ?, %v = ? where %v = ? and %v = ?;`,
 				models.TableNames.Headers,
 				models.HeaderColumns.Name,
 				models.HeaderColumns.Lastknownrecord,
 				models.HeaderColumns.Lastknownblock,
 				models.HeaderColumns.Name,
+				models.HeaderColumns.Linkname,
 			),
 			newName,
 			lastknownrecord,
 			lastknownblock,
 			oldName,
+			linkname,
 		).ExecContext(ctx, p.sqlite.DB); err != nil {
 			return err
 		}
